@@ -17,6 +17,7 @@ RULE = ("Hypothesis-generated configurations over strategies 0-5 with AppEff 30-
 ASSUMPTIONS = [
     "the threshold decision is checked against the library's own depletion D and available water T (exact), D and T themselves are compared with an independent root-zone sum within 0.01 mm x compartments (+2 % of the water above field capacity, the library's rounding of the root depth)",
     "the growth stage (1-4) that selects the threshold is recomputed independently from the crop calendar (time since planting, in days or degree days, less the time lost before germination; the germination flag is read from the model state) and compared with the stage the decision used",
+    "strategy, efficiency, maxima, thresholds, interval, depth and schedule are the CONFIGURED values (documented defaults where not given), not the model's internal struct",
     "the day's curve-number runoff (an input of the depletion estimate) is taken from the decision's inputs; rain, days after planting, step index and yesterday's potential ET are checked against the tables / the harness's weather copy",
 ]
 BUDGET = {"quick": 320, "thorough": 6000}
@@ -40,12 +41,14 @@ def evaluate(cfg):
     if n == 0:
         return res
     m = tr.model
-    irr = m._param_struct.IrrMngt
-    method = int(irr.irrigation_method)
-    eff, max_irr, max_season = float(irr.AppEff), float(irr.MaxIrr), float(irr.MaxIrrSeason)
-    smt = [float(x) for x in np.asarray(irr.SMT, dtype=float)]
-    interval = int(irr.IrrInterval) if method == 2 else 1
-    depth = float(irr.depth)
+    from .common import configured_irrigation
+
+    ci = configured_irrigation(cfg)      # as configured by the user, not the model's struct
+    method = ci["method"]
+    eff, max_irr, max_season = ci["AppEff"], ci["MaxIrr"], ci["MaxIrrSeason"]
+    smt = ci["SMT"]
+    interval = ci["IrrInterval"] if method == 2 else 1
+    depth = ci["depth"]
     sched = {}
     if method == 3:
         for d, v in (cfg["irr"].get("schedule") or []):
